@@ -1,7 +1,7 @@
 SPECIFICATION Spec
 CONSTANTS
   MaxGens = 5
-  MinInit = 5
+  MinInit = 4
   Lvls = {1, 2, 3, 4}
   Shapes <- ShapesSmall
   Tombs = {FALSE}
